@@ -27,6 +27,9 @@ pub fn replay() -> Option<&'static Replay> {
     REPLAY.get().and_then(|r| r.as_ref())
 }
 
+/// Set by C15, whose subject is exactly whether an output depends on what happened before.
+pub static HISTORY_IS_THE_SUBJECT: std::sync::atomic::AtomicBool = std::sync::atomic::AtomicBool::new(false);
+
 /// Re-evaluate a violating case twice; identical signatures are required before it is believed.
 fn confirm(first: Outcome, again: &dyn Fn() -> Outcome) -> Outcome {
     if first.findings.is_empty() && first.known.is_empty() {
@@ -42,6 +45,13 @@ fn confirm(first: Outcome, again: &dyn Fn() -> Outcome) -> Outcome {
         let o = again();
         if sigs(&o) != s0 {
             let mut out = first;
+            if HISTORY_IS_THE_SUBJECT.load(std::sync::atomic::Ordering::Relaxed) {
+                // C15: the harness owns every source of nondeterminism (stub or deterministic signatures, fixed keys, fixed
+                // hasher seeds), so a verdict that changes when the same state is evaluated again in the same process is the
+                // subject depending on what the thread did before - the very thing the property excludes
+                out.findings = vec![Finding::new("REPEAT-VERDICT-DEPENDS-ON-HISTORY", "the same state evaluated again", format!("evaluating the same state again in the same process gave another verdict ({:?}, then {:?})", s0, sigs(&o)))];
+                return out;
+            }
             out.machinery.push(format!("harness nondeterminism: violation signatures differ between evaluations of the same state ({:?} vs {:?})", s0, sigs(&o)));
             out.findings.clear();
             return out;
